@@ -80,3 +80,29 @@ Definition entry_spec (v : val) : val :=
       end
   | _ => bad_input
   end.
+
+(** "spec_rows": [start; stop; cash; rebal; long_only; param; fee; burn; rows; market] - the rules driven by
+    recorded target-allocation rows *)
+Definition entry_spec_rows (v : val) : val :=
+  match v with
+  | VL [VZ start; VZ stop; cash; r; lo; param; fee; burn; rws; mkt] =>
+      do cash <- dQ cash; do r <- dec_rebal r;
+      do lo <- dbool lo; do param <- dQ param; do fee <- dec_fee fee; do burn <- dopt dZ burn;
+      do rws <- dlist dec_weights rws;
+      do mkt <- dec_market mkt;
+      let sched := match r with
+                   | RWeekly wd => match weekly start stop wd false with Ok l => l | Err _ => [] end
+                   | RDaily => daily start stop false
+                   | REom => end_of_month start stop false
+                   | RBah => buy_and_hold start
+                   end in
+      match spec_run_rows (mkSpec start stop [] [] cash sched lo param fee burn) (market_lookup mkt) rws with
+      | None => VL [VS "none"]
+      | Some (st, rest, days) =>
+          VL [VS "ok"; vq (st_cash st); enc_qtys (st_hold st); enc_qtys (st_pending st);
+              vlist (fun d => VL [vlist enc_sfill (d_fills d);
+                                  vopt (fun e => VL [VZ (fst e); vq (snd e)]) (d_equity d)]) days;
+              VZ (Z.of_nat (length rest))]
+      end
+  | _ => bad_input
+  end.
